@@ -35,49 +35,127 @@ func init() {
 	})
 }
 
-var skelFuncs = []string{"CloseWithErr", "Feed", "checkAddr", "initConn", "receiveLoop", "Run", "idleCleanupLoop", "cleanup", "feed", "Count"}
+// C07 (lifecycle) skeletons: token form, with the address bookkeeping (C08's part) left out.
+var skelFuncs = []string{"CloseWithErr", "initConn", "receiveLoop", "Run", "idleCleanupLoop", "cleanup", "feed", "Count"}
 
 // calls that carry no lifecycle meaning
 var skelIgnore = map[string]bool{"make": true, "len": true, "append": true, "errors.New": true, "time.Now": true,
 	"uint16": true, "uint8": true, "int": true, "rand.Intn": true, "errors.As": true, "now.Sub": true}
 
+// udpSkeleton returns
+//   udpSkel_<f>     (C07) lifecycle skeleton of f: locks, go statements, calls, returns, branch conditions, writes of the
+//                   guarded fields — WITHOUT the override/original-address bookkeeping and the decision cache;
+//   udpSkel_FeedHead(C07) the part of Feed before the connection is needed (activity stamp, defragmentation);
+//   udpAclSkel_<x>  (C08) the normalised source text of exactly the statements C08's model is written from: Feed from
+//                   `if e.conn == nil` on, checkAddr, the dial call and the override assignment of initConn, the
+//                   original-address substitution of receiveLoop, and the dialFunc closure (hook → log → dial).
+// so that a change to the lifecycle does not disturb C08's obligations and vice versa.
 func udpSkeleton() map[string]any {
 	repo := os.Getenv("VERIF_REPO")
 	if repo == "" {
 		repo = "/repo"
 	}
+	keys := []string{"udpSkel_FeedHead", "udpAclSkel_Feed", "udpAclSkel_checkAddr", "udpAclSkel_initConn", "udpAclSkel_receiveLoop", "udpAclSkel_dialFunc"}
+	for _, n := range skelFuncs {
+		keys = append(keys, "udpSkel_"+n)
+	}
 	out := map[string]any{}
+	for _, k := range keys {
+		out[k] = "missing"
+	}
 	fset := token.NewFileSet()
 	f, err := parser.ParseFile(fset, filepath.Join(repo, "core", "server", "udp.go"), nil, 0)
 	if err != nil {
-		for _, n := range skelFuncs {
-			out["udpSkel_"+n] = "parse error: " + err.Error()
+		for _, k := range keys {
+			out[k] = "parse error: " + err.Error()
 		}
 		return out
 	}
-	found := map[string]string{}
+	want := map[string]bool{}
+	for _, n := range skelFuncs {
+		want[n] = true
+	}
+	t := &skel{fset: fset}
+	isIf := func(st ast.Stmt, sub string) bool {
+		x, ok := st.(*ast.IfStmt)
+		return ok && strings.Contains(t.text(x.Cond), sub)
+	}
 	for _, d := range f.Decls {
 		fd, ok := d.(*ast.FuncDecl)
 		if !ok || fd.Body == nil {
 			continue
 		}
-		var sk skel
-		sk.fset = fset
-		sk.block(fd.Body)
-		found[fd.Name.Name] = strings.Join(sk.toks, " ")
-	}
-	for _, n := range skelFuncs {
-		if s, ok := found[n]; ok {
-			out["udpSkel_"+n] = s
-		} else {
-			out["udpSkel_"+n] = "missing"
+		name := fd.Name.Name
+		if want[name] {
+			sk := skel{fset: fset, lifecycle: true}
+			sk.block(fd.Body)
+			out["udpSkel_"+name] = strings.Join(sk.toks, " ")
+		}
+		switch name {
+		case "Feed":
+			head := skel{fset: fset, lifecycle: true}
+			var tail []string
+			inTail := false
+			for _, st := range fd.Body.List {
+				if isIf(st, "e.conn==nil") {
+					inTail = true
+				}
+				if inTail {
+					tail = append(tail, t.text(st))
+				} else {
+					head.stmt(st)
+				}
+			}
+			out["udpSkel_FeedHead"] = strings.Join(head.toks, " ")
+			out["udpAclSkel_Feed"] = strings.Join(tail, " ; ")
+		case "checkAddr":
+			out["udpAclSkel_checkAddr"] = t.text(fd.Body)
+		case "initConn":
+			var parts []string
+			ast.Inspect(fd.Body, func(n ast.Node) bool {
+				if st, ok := n.(ast.Stmt); ok {
+					if as, ok := st.(*ast.AssignStmt); ok && strings.Contains(t.text(as), "e.DialFunc(") {
+						parts = append(parts, t.text(as))
+					}
+					if isIf(st, "actualAddr") {
+						parts = append(parts, t.text(st))
+						return false
+					}
+				}
+				return true
+			})
+			out["udpAclSkel_initConn"] = strings.Join(parts, " ; ")
+		case "receiveLoop":
+			var parts []string
+			ast.Inspect(fd.Body, func(n ast.Node) bool {
+				if st, ok := n.(ast.Stmt); ok && isIf(st, "OriginalAddr") {
+					parts = append(parts, t.text(st))
+					return false
+				}
+				if kv, ok := n.(*ast.KeyValueExpr); ok && t.text(kv.Key) == "Addr" {
+					parts = append(parts, t.text(kv))
+				}
+				return true
+			})
+			out["udpAclSkel_receiveLoop"] = strings.Join(parts, " ; ")
+		case "feed":
+			done := false
+			ast.Inspect(fd.Body, func(n ast.Node) bool {
+				if fl, ok := n.(*ast.FuncLit); ok && !done {
+					done = true
+					out["udpAclSkel_dialFunc"] = t.text(fl.Body)
+					return false
+				}
+				return true
+			})
 		}
 	}
 	return out
 }
 
 type skel struct {
-	fset *token.FileSet
+	lifecycle bool // leave out the address bookkeeping (C08's part)
+	fset      *token.FileSet
 	toks []string
 }
 
@@ -133,6 +211,9 @@ func (s *skel) stmt(st ast.Stmt) {
 			s.emit(b.Tok.String())
 		}
 	case *ast.IfStmt:
+		if c := s.text(x.Cond); s.lifecycle && (strings.Contains(c, "OriginalAddr") || strings.Contains(c, "actualAddr")) {
+			return
+		}
 		if x.Init != nil {
 			s.stmt(x.Init)
 		}
@@ -201,7 +282,7 @@ func (s *skel) expr(e ast.Expr) {
 				var kv []string
 				for _, el := range x.Elts {
 					if p, ok := el.(*ast.KeyValueExpr); ok {
-						if k := s.text(p.Key); k == "SessionID" || k == "Addr" {
+						if k := s.text(p.Key); k == "SessionID" || (k == "Addr" && !s.lifecycle) {
 							kv = append(kv, k+":"+s.text(p.Value))
 						}
 					}
